@@ -57,7 +57,8 @@ ObsNext(st, e) ==
 
 Clauses(st, e) ==
   << <<"C06_TrueMeansNeverStarts",
-        ((e.ev = "Invoke" \/ (e.ev = "DelegateSubmit" /\ TapIdx(e.s) > 0)) /\ e.f \in st.ctrue) => FALSE>>,
+        \* (InnerRun: the work of a flat-mapped inner future of f starts)
+        ((e.ev \in {"Invoke", "InnerRun"} \/ (e.ev = "DelegateSubmit" /\ TapIdx(e.s) > 0)) /\ e.f \in st.ctrue) => FALSE>>,
      <<"C06_TrueSticks",
         ((e.ev = "Observed" \/ e.ev = "Final") /\ e.s = "FINISHED") => e.f \notin st.ctrue>>,
      <<"C06_RunningMeansFalse",
